@@ -347,9 +347,15 @@ func (P) Generate(g *hx.Gen) {
 		ops := []string{hx.CaseOp(), line, "diag"}
 		ops = append(ops, r.HistLines(p)...)
 		// step-level tie: every handled input of every correct node, compared with Model.Node.step
-		maxPerNode := g.Pick(400, 2000)
-		ops = append(ops, r.Net.TraceLines(maxPerNode)...)
+		maxPerNode := g.Pick(400, 1000)
+		traced := k < g.Pick(total, 400) // thorough tier: the step-level lines of the first 400 simulations (the op stream stays below ~1 GB)
+		if traced {
+			ops = append(ops, r.Net.TraceLines(maxPerNode)...)
+		}
 		for _, tr := range r.Net.Trace {
+			if !traced {
+				break
+			}
 			for k, te := range tr {
 				if k >= maxPerNode {
 					break
